@@ -34,6 +34,7 @@ classmodel("Conn", {
     "_request_timeout": REAL,
     "_versions": Opaque("Versions"),
     "g_closes": INT,                    # ghost: number of times the close callback ran
+    "_sasl_mechanism": STR, "_security_protocol": STR, "_sasl_plain_username": Opt(STR), "sasl_principal": Opt(STR),
 }, real=MOD + ":AIOKafkaConnection")
 
 Q = "self._requests"
